@@ -294,10 +294,55 @@ pub fn far_doc(r: &mut Rng) -> String {
     s
 }
 
+/// Deeply nested containers (block quotes, bullet and ordered items mixed, 12 to 60 levels) around a
+/// leaf with nested inlines: renderer state that depends on depth (indentation, stacks, caps).
+pub fn deep_doc(r: &mut Rng) -> String {
+    let depth = *r.pick(&[12usize, 19, 21, 24, 33, 60]);
+    let mut first = String::new();
+    let mut cont = String::new();
+    for _ in 0..depth {
+        match r.below(4) {
+            0 | 1 => {
+                first.push_str("> ");
+                cont.push_str("> ");
+            }
+            2 => {
+                first.push_str("- ");
+                cont.push_str("  ");
+            }
+            _ => {
+                first.push_str("1. ");
+                cont.push_str("   ");
+            }
+        }
+    }
+    let mut s = String::new();
+    s.push_str(&first);
+    s.push_str("deeply *nested **text** with `code`* and ");
+    s.push_str(&inline(r, 2));
+    s.push('\n');
+    if r.chance(1, 2) {
+        s.push_str(&cont);
+        s.push('\n');
+        s.push_str(&cont);
+        s.push_str("second paragraph\n");
+    }
+    s.push('\n');
+    let k = *r.pick(&[10usize, 22, 40]);
+    s.push_str(&"*_".repeat(k));
+    s.push_str("x");
+    s.push_str(&"_*".repeat(k));
+    s.push('\n');
+    s
+}
+
 /// The mixed stream most properties use.
 pub fn mixed_doc(r: &mut Rng, corpus: &Corpus) -> (String, &'static str) {
     if r.chance(1, 40) {
         return (far_doc(r), "far");
+    }
+    if r.chance(1, 40) {
+        return (deep_doc(r), "deep");
     }
     match r.below(10) {
         0..=3 => (grammar_doc(r), "grammar"),
